@@ -319,6 +319,14 @@ func oracleFacts(repo string, emit func(name, leanDef string, err error)) {
 		body := orcNodeText(fset, src, fd.Body)
 		var got []string
 		for _, w := range wants {
+			if strings.HasPrefix(w, "!") { // a fragment that must NOT occur
+				if strings.Contains(body, w[1:]) {
+					emit(name, "", fmt.Errorf("%s: source fragment %q must not occur (the code changed: re-validate the model)", fn, w[1:]))
+					return
+				}
+				got = append(got, w)
+				continue
+			}
 			if !strings.Contains(body, w) {
 				emit(name, "", fmt.Errorf("%s: expected source fragment %q not found (the code changed: re-validate the model)", fn, w))
 				return
@@ -357,6 +365,20 @@ func oracleFacts(repo string, emit func(name, leanDef string, err error)) {
 	// caches.go after the F-14d repair: no pruning while the chain is younger than MaxNonce
 	shape("oracleCacheCommitShape", "x/oracle/keeper/cache/caches.go", "cacheMsgs.commit", []string{
 		"if block > uint64(common.MaxNonce)", "oldest = block - uint64(common.MaxNonce)", "if b > oldest",
+	})
+	// context.go: SetValidatorPowers re-creates the map before copying the new set (a departed validator is dropped)
+	shape("oracleSetValidatorsShape", "x/oracle/keeper/aggregator/context.go", "AggregatorContext.SetValidatorPowers", []string{
+		"agc.totalPower = big.NewInt(0) agc.validatorsPower = make(map[string]*big.Int) for addr, power := range vp {",
+		"agc.validatorsPower[addr] = power", "agc.totalPower = new(big.Int).Add(agc.totalPower, power)",
+	})
+	// filter.go: addPSource builds the filtered copy entry by entry through detIDs.Add; the original source never reaches the calculator
+	shape("oracleFilterSourceShape", "x/oracle/keeper/aggregator/filter.go", "filter.addPSource", []string{
+		"for _, pDetID := range pSource.Prices { if ok := detIDs.Add(pDetID.DetID); ok {", "pSourceTmp.Prices = append(pSourceTmp.Prices, pDetID)",
+		"list4Calculator = append(list4Calculator, pSourceTmp)", "!list4Calculator = append(list4Calculator, pSource)",
+	})
+	// caches.go: cacheValidator.add raises the update flag in all three branches that change the map
+	shape("oracleCacheValidatorShape", "x/oracle/keeper/cache/caches.go", "cacheValidator.add", []string{
+		"delete(c.validators, operator) c.update = true", "c.validators[operator].Set(newPower) c.update = true", "} else { c.update = true",
 	})
 	shape("oracleTimestampShape", "x/oracle/keeper/msg_server_create_price.go", "checkTimestamp", []string{
 		"if len(ts) == 0", "if now.Add(maxFutureOffset).Before(t)",
